@@ -142,14 +142,41 @@ pub fn poison_flags(targets: &[Target<'_>], arena: &Arena) -> u64 {
 	pf
 }
 
+/// The flags one target can reach: its own, and those of the arena Poisonables among its leaves.
+pub fn poison_flags_of(t: &Target<'_>, arena: &Arena) -> u64 {
+	use crate::world::{OW0, PM0, PPM_LEAF, PPR_LEAF, PR0};
+	let mut pf = 1u64;
+	for l in &t.leaves {
+		let l = *l;
+		if (PM0..PR0).contains(&l) {
+			pf = pf << 2 | 2 | arena.pm[(l - PM0) as usize].is_poisoned() as u64;
+		} else if (PR0..OW0).contains(&l) {
+			pf = pf << 2 | 2 | arena.pr[(l - PR0) as usize].is_poisoned() as u64;
+		} else if l == PPM_LEAF {
+			pf = pf << 2 | 2 | arena.ppm.is_poisoned() as u64;
+		} else if l == PPR_LEAF {
+			pf = pf << 2 | 2 | arena.ppr.is_poisoned() as u64;
+		} else {
+			pf <<= 1;
+		}
+	}
+	if let Some(b) = t.coll.is_poisoned() {
+		pf = pf << 2 | 2 | b as u64;
+	}
+	pf
+}
+
 /// The threads read these flags between scheduling points; see `Inner::hidden_probe`.
 pub fn install_hidden_probe(exec: &Exec, targets: &[Target<'_>], arena: &Arena) {
 	struct P<'a>(&'a [Target<'a>], &'a Arena);
 	unsafe impl Send for P<'_> {}
 	let p = P(targets, arena);
-	exec.set_hidden_probe(Box::new(move || {
+	exec.set_hidden_probe(Box::new(move |t| {
 		let q = &p;
-		poison_flags(q.0, q.1)
+		match t {
+			None => poison_flags(q.0, q.1),
+			Some(t) => poison_flags_of(&q.0[t], q.1),
+		}
 	}));
 }
 
@@ -172,7 +199,18 @@ fn snapshot(g: &Inner, targets: &[Target<'_>], arena: &Arena, cfg: &Cfg) -> Snap
 			_ => 1,
 		});
 		parts.push(th.pc as u64);
-		parts.push(if th.use_local { th.local } else { th.obs });
+		// menu threads: canonical local state (which names the action in progress, if any), plus - while inside an
+		// action - the digest of the hidden flags of the action's target that the library last ran under. (The complete observation hash would
+		// make retry loops acyclic: a retrying acquisition that is woken and fails again has observed more, and has
+		// the same future.)
+		if th.use_local {
+			parts.push(th.local);
+			if !matches!(th.pending, Some(Pending::Menu(_))) {
+				parts.push(th.watch_seen);
+			}
+		} else {
+			parts.push(th.obs);
+		}
 		outcome.push(th.obs);
 		match &th.pending {
 			Some(Pending::Raw(op)) => {
@@ -499,10 +537,10 @@ impl<'p> Search<'p> {
 				}
 			}));
 		}
-		let ok = pool.run(jobs, std::time::Duration::from_secs(30));
+		let ok = pool.run(jobs, std::time::Duration::from_secs(90));
 		exec.clear_decider();
 		if !ok {
-			eprintln!("machinery: watchdog: a logical thread did not come back within 30 s (possible livelock inside the library) in program {} after schedule {:?}", prog.describe(), self.path);
+			eprintln!("machinery: watchdog: a logical thread did not come back within 90 s (possible livelock inside the library) in program {} after schedule {:?}", prog.describe(), self.path);
 			std::process::exit(3);
 		}
 		if let Some(m) = exec.lock().machinery_error.clone() {
@@ -600,7 +638,7 @@ pub fn replay(prog: &Program, cfg: &Cfg, schedule: &[(u8, u16)]) -> Result<(Vec<
 			}
 		}));
 	}
-	let ok = POOL.with(|p| p.borrow_mut().run(jobs, std::time::Duration::from_secs(30)));
+	let ok = POOL.with(|p| p.borrow_mut().run(jobs, std::time::Duration::from_secs(90)));
 	exec.clear_decider();
 	if !ok {
 		return Err("watchdog".into());
@@ -696,10 +734,10 @@ fn probe(prog: &Program, cfg: &Cfg, prefix: &[(u8, u16)], hook: Option<&StateHoo
 			}
 		}));
 	}
-	let ok = POOL.with(|p| p.borrow_mut().run(jobs, std::time::Duration::from_secs(30)));
+	let ok = POOL.with(|p| p.borrow_mut().run(jobs, std::time::Duration::from_secs(90)));
 	exec.clear_decider();
 	if !ok {
-		eprintln!("machinery: watchdog: a logical thread did not come back within 30 s in program {} after schedule {:?}", prog.describe(), prefix);
+		eprintln!("machinery: watchdog: a logical thread did not come back within 90 s in program {} after schedule {:?}", prog.describe(), prefix);
 		std::process::exit(3);
 	}
 	drop(targets);
@@ -716,6 +754,9 @@ pub fn explore_bfs_par(prog: &Program, cfg: &Cfg, hook: Option<&StateHook>) -> O
 	let mut frontier: Vec<Vec<(u8, u16)>> = vec![vec![]];
 	let nworkers = crate::conc::workers();
 	'levels: while !frontier.is_empty() {
+		if std::env::var("HLVERIF_PROGRESS").is_ok() {
+			eprintln!("bfs {}: depth {} frontier {} states {}", prog.describe().chars().take(60).collect::<String>(), frontier[0].len(), frontier.len(), stats.states);
+		}
 		let next_idx = std::sync::atomic::AtomicUsize::new(0);
 		let results: std::sync::Mutex<Vec<(usize, ProbeOut)>> = std::sync::Mutex::new(Vec::with_capacity(frontier.len()));
 		std::thread::scope(|s| {
